@@ -91,14 +91,25 @@ def others_view(m):
     return {r.id: (r.lower_bound, r.upper_bound) for r in m.reactions if r.id not in [e[0] for e in EXCH]}
 
 
-def medium_transition(state, op, in_context):
+def medium_transition(state, op, in_context, origin=None):
     viol = []
     m = build_medium_bench(state)
     case = {"part": "medium", "state": [list(s) for s in state], "op": [list(o) for o in op], "context": in_context}
+    if origin:
+        # the same model reached by another public route (mc/origins.py)
+        from .. import origins
+
+        case["origin"] = origin
+        try:
+            m = origins.derive(m, origin)
+        except origins.OriginUnavailable:
+            return None, []
 
     def bad(check, detail):
-        viol.append(({"part": "medium", "check": check, "context": in_context}, case,
-                     f"{detail}\nstate {state} op {op}"))
+        sg = {"part": "medium", "check": check, "context": in_context}
+        if origin:
+            sg["origin"] = origin
+        viol.append((sg, case, f"{detail}\nstate {state} op {op}"))
 
     before_others = others_view(m)
     got_med = m.medium
@@ -306,6 +317,19 @@ def run_task(payload):
                 succ.append((nxt, nxt, nxt is not None))
             succ_all.append(succ)
         return {"succ": succ_all, "violations": violations[:300], "stats": stats}
+    if payload["kind"] == "medium_origins":
+        from .. import origins
+
+        stats, violations = {"medium_transitions_from_origins": 0}, []
+        state = tuple(tuple(x) for x in payload["state"])
+        for op in medium_ops()[payload["offset"]::7]:
+            for origin in origins.ORIGINS:
+                if origin == "in_context":
+                    continue   # (the transition opens and leaves contexts of its own)
+                _, viol = medium_transition(state, op, False, origin)
+                stats["medium_transitions_from_origins"] += 1
+                violations.extend(viol)
+        return {"violations": violations[:100], "stats": stats}
     P = payload["params"]
     stats, violations = {}, []
     for net in payload["nets"]:
@@ -333,7 +357,7 @@ def replay(case):
 
     if case.get("part") == "medium":
         _, viol = medium_transition(tuple(tuple(s) for s in case["state"]), tuple(tuple(o) for o in case["op"]),
-                                    case["context"])
+                                    case["context"], case.get("origin"))
         return [{"sig": s, "detail": d} for s, c, d in viol]
     net = tuple(tuple(c) for c in case["net"])
     bounds = tuple((_u(a), _u(b)) for a, b in case["bounds"])
@@ -371,6 +395,8 @@ def explore(ctx):
     if ctx.tier == "quick":
         no = no[::2]
     payloads += [{"kind": "mm", "params": P, "nets": no[i:i + 1], "origins": True} for i in range(len(no))]
+    # Part A from every origin: every initial state x every 7th assignment (the offset rotates with the state)
+    payloads += [{"kind": "medium_origins", "state": [list(x) for x in st], "offset": k % 7} for k, st in enumerate(inits)]
     stats = {}
     with ctx.pool(timeout=3000) as pool:
         for i, status, r0 in pool.imap(payloads):
@@ -396,6 +422,8 @@ def explore(ctx):
         "exhaustive": bool(res["closed"]), "medium_states": res["states"], "medium_transitions": res["transitions"],
         "medium_closed": bool(res["closed"]), "minimal_medium_models": stats.get("models", 0),
         "minimal_medium_calls": stats.get("evaluations", 0), "exactlp_selftest_lps": n_self,
+        "medium_from_origins": "%d medium assignments on models reached by another route (every initial state x every 7th "
+                               "assignment x every origin)" % stats.get("medium_transitions_from_origins", 0),
         "origins_pass": "%d three-reaction networks x 2 bound profiles x %d origins (%s): %d models; route itself failed for %d" % (
             len(no), len(origins.ORIGINS), ", ".join(origins.ORIGINS), stats.get("models_from_origins", 0),
             stats.get("origin_unavailable", 0)),
